@@ -135,9 +135,16 @@ class QRModel:
         if isinstance(X, FrameMatrix):
             n = X.frame.axis.n
             interp.ctx.oblige("qr.fit.pre.nonempty_training_set", n >= 1, kind="callee-pre", why="the solver divides by the weight sum: at least one training row is needed")
-            self.coefs = {}
-            for cname, c in X.frame.cols.items():
-                self.coefs[cname] = z3.Real(fresh_name(f"coef_{cname}"))
+            # A-QR: the fit is a FUNCTION of its request -- a request that is provably equal (same rows, same design
+            # columns, response, weights, tau, lambda, flags) to an earlier one yields the same coefficients
+            req = _request_signature(X, b)
+            prev = _find_equal_request(interp, req)
+            if prev is not None:
+                self.coefs, self.pred_fn = prev["coefs"], prev["pred_fn"]
+            else:
+                self.coefs = {cname: z3.Real(fresh_name(f"coef_{cname}")) for cname in X.frame.cols}
+                self.pred_fn = z3.Function(fresh_name("qr_pred"), z3.IntSort(), z3.RealSort())
+                interp.__dict__.setdefault("qr_requests", []).append(dict(req=req, coefs=self.coefs, pred_fn=self.pred_fn))
             self.fit_cols = list(X.frame.cols)
         else:
             self.coefs = None
@@ -153,10 +160,48 @@ class QRModel:
                     t = t + self.coefs[cname] * real(c.t)
                 return V(t, (fr.axis,), None)
             # opaque design matrix: the prediction is a function of (this model's coefficients, the unit's row)
-            if not hasattr(self, "pred_fn"):
+            if getattr(self, "pred_fn", None) is None:
                 self.pred_fn = z3.Function(fresh_name("qr_pred"), z3.IntSort(), z3.RealSort())
             return V(self.pred_fn(fr.axis.root.u), (fr.axis,), None)
         raise Undecided("predict on something that is not a design matrix")
+
+
+def _request_signature(X, b):
+    fr = X.frame
+    ax = fr.axis
+    terms = [("dom", ax.doms[0] if len(ax.doms) == 1 else z3.Or(*ax.doms))]
+    for cname, c in fr.cols.items():
+        if not isinstance(c, frames.Poison):
+            terms.append((f"x:{cname}", c.t))
+    for k in ("y", "weights", "taus", "lambda_"):
+        v = b.get(k)
+        if isinstance(v, V):
+            terms.append((k, v.t))
+        else:
+            terms.append((k, to_term(v) if v is not None else z3.IntVal(-1)))
+    flags = tuple((k, b.get(k)) for k in ("fit_intercept", "regularize_intercept", "n_feat_ignore_reg", "normalize_weights") if not isinstance(b.get(k), V))
+    return dict(root=ax.root, order=ax.order, terms=terms, flags=flags)
+
+
+def _find_equal_request(interp, req):
+    for prev in getattr(interp, "qr_requests", []):
+        p = prev["req"]
+        if p["root"] is not req["root"] or p["order"] != req["order"] or p["flags"] != req["flags"] or [k for k, _ in p["terms"]] != [k for k, _ in req["terms"]]:
+            continue
+        dom = req["terms"][0][1]
+        conds = [p["terms"][0][1] == dom]
+        for (k, a), (_, c) in zip(p["terms"][1:], req["terms"][1:]):
+            if a.sort() != c.sort():
+                a, c = real(a), real(c)
+            conds.append(z3.Implies(dom, a == c) if k.startswith("x:") or k in ("y", "weights") else a == c)
+        s = z3.Solver()
+        s.set("timeout", 3000)
+        for f in interp.ctx.pc:
+            s.add(f)
+        s.add(z3.Not(z3.And(*conds)))
+        if s.check() == z3.unsat:
+            return prev
+    return None
 
 
 class OpaqueList(list):
@@ -197,9 +242,33 @@ class FeaturizerContract:
         if name == "prepare_data":
 
             def prepare_data(df, center_features=True, scale_features=True, add_intercept=True):
-                _use("Featurizer.prepare_data (contract): row- and order-preserving")
+                _use("Featurizer.prepare_data (contract): row- and order-preserving; reads only the feature / fixed-effect columns, postal_code, reporting and unit_category (never a results_* column)")
                 self.prepared.append(df)
-                x = XFrame(df.axis, {"<design>": V(z3.Function(fresh_name("design"), z3.IntSort(), z3.RealSort())(df.axis.root.u), (df.axis,))}, df.index, df.idkey)
+                reads = [c for c in (list(self.features) + list(self.fixed_effects if not isinstance(self.fixed_effects, dict) else self.fixed_effects.keys()) + ["postal_code", "reporting", "unit_category"]) if c in df.cols and not isinstance(df.cols[c], frames.Poison)]
+                ax_ = df.axis
+                sig = dict(root=ax_.root, doms=list(ax_.doms), order=ax_.order, names=reads, segcols=[[ax_.seg_term(df.cols[c].t, i) for c in reads] for i in range(len(ax_.doms))], args=(center_features, scale_features, add_intercept))
+                fn = None
+                for prev in getattr(interp, "design_requests", []):
+                    p = prev["sig"]
+                    if p["root"] is sig["root"] and p["order"] == sig["order"] and p["args"] == sig["args"] and len(p["doms"]) == len(sig["doms"]) and p["names"] == sig["names"]:
+                        conds = [a == b_ for a, b_ in zip(p["doms"], sig["doms"])]
+                        for i, dom_i in enumerate(sig["doms"]):
+                            for a, b_ in zip(p["segcols"][i], sig["segcols"][i]):
+                                if a.sort() != b_.sort():
+                                    a, b_ = real(a), real(b_)
+                                conds.append(z3.Implies(dom_i, a == b_))
+                        sv = z3.Solver()
+                        sv.set("timeout", 3000)
+                        for f_ in interp.ctx.pc:
+                            sv.add(f_)
+                        sv.add(z3.Not(z3.And(*conds)))
+                        if sv.check() == z3.unsat:
+                            fn = prev["fn"]
+                            break
+                if fn is None:
+                    fn = z3.Function(fresh_name("design"), z3.IntSort(), z3.RealSort())
+                    interp.__dict__.setdefault("design_requests", []).append(dict(sig=sig, fn=fn))
+                x = XFrame(df.axis, {"<design>": V(fn(df.axis.root.u), (df.axis,))}, df.index, df.idkey)
                 return x
 
             return prepare_data
